@@ -706,6 +706,73 @@ func runC18(c *Ctx) {
 		}
 	}
 
+	// R10 the Bridge endpoint reports the end of the stream only when its channel was closed
+	if br := p.Func("test", "bridgeConn", "Read"); br != nil {
+		o10 := c.Obl("R10", fname(br), "a Bridge endpoint's Read reports io.EOF only on the closed edge of the receive (the comma-ok result is false), never from the value received: an empty message is a message", 1)
+		for _, in := range findU(br, func(in ssa.Instruction) bool { return returnsGlobalErr(in, "io", "EOF") }) {
+			o10.Site(in.Pos(), "return io.EOF")
+			if !hasFact(in, func(ft fact) bool {
+				return boolFact(ft, func(v ssa.Value) bool {
+					ex, ok := origin(v).(*ssa.Extract)
+					if !ok || !isBoolType(ex.Type()) {
+						return false
+					}
+					switch t := ex.Tuple.(type) {
+					case *ssa.Select:
+						return true
+					case *ssa.UnOp:
+						return t.Op == token.ARROW && t.CommaOk
+					}
+					return false
+				}, false)
+			}) {
+				o10.Fail(in.Pos(), "Read reports io.EOF without having found the read channel closed (comma-ok false): a received value such as an empty or nil message is taken for the end of the stream")
+			}
+		}
+	}
+
+	// R2w messages already handed to the peer are taken back only by an expired write deadline
+	{
+		ow := c.Obl("R2w", fname(dw), "Write receives from its own write channel (taking back messages the peer has not read yet) only on the edge where the write deadline has expired: closing an end, or writing on a closed end, leaves what was already sent to the peer", 1)
+		wpaths, okW := enumIterPathsU(dw, 50000)
+		if !okW {
+			ow.Undecide("the paths of dpipe Write could not be enumerated")
+		}
+		failedW := map[ssa.Instruction]bool{}
+		sitedW := map[ssa.Instruction]bool{}
+		for pi := range wpaths {
+			pt := &wpaths[pi]
+			deadline := false
+			for idx, in := range pt.Instrs {
+				sel, ok := in.(*ssa.Select)
+				if !ok {
+					continue
+				}
+				// a drain step of this select?
+				for _, st := range sel.States {
+					if st.Dir != types.RecvOnly {
+						continue
+					}
+					if fr, ok := asFieldLoad(pt.valueAt(st.Chan, idx)); ok && fr.SName == "dpipe.conn" && fr.Field == wField {
+						if !sitedW[in] {
+							sitedW[in] = true
+							ow.Site(in.Pos(), "receive from the write channel")
+						}
+						if !deadline && !failedW[in] {
+							failedW[in] = true
+							ow.Fail(in.Pos(), "Write can receive from its own write channel on a path on which the write deadline was not found expired: messages already sent to the peer are discarded")
+						}
+					}
+				}
+				if k := selCaseOnPathAt(pt, sel, idx); k >= 0 && k < len(sel.States) {
+					if strings.HasPrefix(chanRole(pt.valueAt(sel.States[k].Chan, idx)), "done ") {
+						deadline = true
+					}
+				}
+			}
+		}
+	}
+
 	// R9 a scripted drop or reorder claims the write before the filter is asked
 	{
 		o9 := c.Obl("R9", fname(push), "DropNextNWrites / ReorderNextNWrites count every write: the filter callback is consulted only on paths that have found both pending counters of the direction not positive (a write the filter would refuse still uses up its slot of the script)", 1)
